@@ -152,6 +152,9 @@ class Sched:
         self.cur = t
         return t
 
+    start_fail = None       # {thread-name prefix: [ordinals of start() calls that fail]} - set by a world
+    start_counts = None
+
     def spawn(self, thread_obj):
         """called in the parent's context from the patched Thread.start()"""
         t = SimThread(len(self.threads), _clean_name(thread_obj))
@@ -902,6 +905,17 @@ def install(sched, line_codes=()):
     def start(self):
         if sched.killing or sched.me() is None:
             return _real_start(self)
+        fails = getattr(sched, "start_fail", None)
+        if fails:
+            # fault: the operating system refuses another thread (world sets sched.start_fail = {name prefix: [ordinals]})
+            name = _clean_name(self)
+            for prefix, ordinals in fails.items():
+                if name.startswith(prefix):
+                    k = sched.start_counts.get(prefix, 0) + 1
+                    sched.start_counts[prefix] = k
+                    if k in ordinals:
+                        sched.ev("start-failed", name, k)
+                        raise RuntimeError("can't start new thread")
         sched.spawn(self)
 
     def join(self, timeout=None):
